@@ -24,7 +24,7 @@ pub broadcast axiom fn ax_display_commanderror(e: CommandError, f: &std::fmt::Fo
 // the assumed contracts below are tied to the text of the functions they speak about (see tools/extract.py check_assumed)
 //@assumed command.rs Message::from_shared_str sha=fcede3cbabfd units=dispatch
 //@assumed command.rs Command::from_message sha=2cb92377f575 units=dispatch
-//@assumed command.rs Command::parse_from_message sha=5d809b6b9765 units=dispatch
+//@assumed command.rs Command::parse_from_message sha=e25ce81201ea units=dispatch
 //@assumed command.rs Command::validate sha=360ec9b03856 units=dispatch
 //@assumed utils.rs validate_channelmodes sha=0c59764eb236 units=dispatch
 // what the (unverified) tokenizer and per-verb parser return: uninterpreted, so that the dispatcher's reaction can be specified
